@@ -568,7 +568,7 @@ impl<'a> Ctx<'a> {
                 match r {
                     Ok(c) => { self.bump("ts_mode_run"); Some(Ok(c)) }
                     Err(m) => {
-                        if m == "fragment not found" { self.bump("ts_mode_run"); Some(Err(m)) } else { self.bump("ts_mode_other_panic"); None }
+                        if m == "fragment not found" { self.bump("ts_mode_run"); Some(Err(m)) } else { self.bump(&format!("ts_mode_other_panic:{}", m.chars().take(60).collect::<String>())); None }
                     }
                 }
             }
@@ -666,7 +666,7 @@ fn main() {
     if thorough { for t in exhaustive_graphs(2) { cx.push_text("exhaustive-graphs-2", t, true); } }
 
     // 2. documents from the shared generators (spec-valid, accepted by check), all value kinds and directives
-    let n_schemas = if thorough { 300 } else { 30 };
+    let n_schemas = if thorough { 200 } else { 30 };
     let per_schema = if thorough { 8 } else { 4 };
     for _ in 0..n_schemas {
         let s = gen_schema(&mut rng, &SchemaCfg::default());
@@ -687,7 +687,7 @@ fn main() {
     }
 
     // 3. synthetic spread graphs with rich values over the fixed schema
-    let n_syn = if thorough { 6000 } else { 320 };
+    let n_syn = if thorough { 4000 } else { 320 };
     for i in 0..n_syn {
         let cfg = SynCfg {
             n_frags: rng.range(0, 6),
@@ -704,7 +704,7 @@ fn main() {
     }
 
     // 4. AST shapes the parser never produces (empty selection sets, Some(empty arguments), Some(empty variables))
-    let n_edit = if thorough { 1500 } else { 100 };
+    let n_edit = if thorough { 1000 } else { 100 };
     let mut n_edits = 0u64;
     for _ in 0..n_edit {
         let cfg = SynCfg { n_frags: rng.range(0, 4), cyclic: false, undefined: false, duplicate: false, typed: true, spread_bias: 2 };
